@@ -2,13 +2,17 @@
    followed by Print Assumptions.  Model: Build.v sections 5-7 (saml.go SigningContext / getSigningCert, goxmldsig
    SetSignatureMethod / getCerts / ConstructSignature, the Sign* re-assembly); lemmas: P_Build.v section 8.
 
-   NOT proved here: "the signature verifies after serialisation and re-parsing".  That needs a model of the
-   canonicalisers and of the parser; it is established by the correspondence run, which verifies every produced
-   message with goxmldsig against exactly the certificate GetSigningCertBytes reports (harness c13.go), and it is
-   FALSE when a configuration string contains U+000D (known finding F8, key "cr-in-config": etree writes the CR raw,
-   the recipient's parser reads LF, the digest no longer matches). *)
+   "The signature verifies": proved AT TREE LEVEL (C13_sign_verify_*, end of this file): the signed tree, fed to the model
+   of goxmldsig's ValidationContext.Validate (Dsig.v), is accepted and what is returned is the re-parse of the canonical
+   bytes of the message without its signature, for every canonicaliser / digest / signature / certificate / parser oracle
+   satisfying the laws named in the statement.  NOT proved: the byte level in between (etree's writer followed by the
+   recipient's parser reproduces the tree: C15_scan_write_tokens + the parser oracle); it is established by the
+   correspondence run, which verifies every produced message with goxmldsig against exactly the certificate
+   GetSigningCertBytes reports (harness c13.go), and it is FALSE when a configuration string contains U+000D (known finding
+   F8, key "cr-in-config": etree writes the CR raw, the recipient's parser reads LF, the digest no longer matches). *)
 From V Require Import Base Time Escape EscapeProofs Xml Ns Generated Build P_Build P_Sign.
 From V Require Keys Metadata P_Keys.   (* the shared key-selection model, cited by the last theorem; names stay qualified *)
+From V Require Schema Response Dsig P_SignVerify.   (* the verifier (model of goxmldsig Validate) for C13_sign_verify_*; names stay qualified *)
 Local Open Scope string_scope.
 
 (* children = Issuer :: Signature :: rest for the three message kinds, where Issuer :: rest are the children of the
@@ -151,6 +155,233 @@ Theorem C13_signing_key_agreement_shared_model : forall alg c s certs cert,
                        Metadata.published Metadata.use_signing ed = [base64_encode cert]).
 Proof. exact P_Keys.signing_key_agrees_with_reported_and_published. Qed.
 Print Assumptions C13_signing_key_agreement_shared_model.
+
+(* ================================================================ sign, then verify (tree level) ================================================================
+   Signer: Build.construct_signature + sign_placement (= sign_element, C13_sign_verify_sign_element_steps).  Verifier:
+   Dsig.dsig_validate, the model of goxmldsig v1.5.0 ValidationContext.Validate, over oracles canon / digest / sig_ok /
+   parse_cert / reparse, with the store = the one certificate the SP embeds.  [sign] is the signing oracle.
+   LAWS OF THE ORACLES (the first four premises): the key and the certificate are a pair (a signature made with the key
+   verifies under the certificate); signatures are not empty; x509 parsing of the embedded bytes gives that certificate;
+   digests are at least 20 bytes.  The parser round trip is needed at two byte strings only and is a premise at exactly
+   those: the canonical SignedInfo re-parses to the tree the verifier prepared (reparse sib = Some p), the canonical
+   message re-parses to v (reparse bytes = Some v).
+   PREMISES about the configuration, each with a refutation below when dropped: the element is signable (shape of the
+   builders' elements: C13_sign_verify_builders_signable; U+000D in the ID: C13_sign_verify_cr_in_id_refuted); the
+   declared canonicaliser identifier is one goxmldsig's verifier knows (C13_sign_verify_unknown_canonicaliser_refuted) and
+   names the canonicaliser the signer ran (exclusive canonicaliser with a prefix list: C13_sign_verify_exc_prefix_list_refuted,
+   known finding exc-prefix-list); one embedded certificate, inside its validity window at the verifier's clock.
+   DigestValue = base64 (digest (canonical bytes of the element as the canonicaliser left it)); SignatureValue = base64 (a
+   signature over the canonical bytes of SignedInfo as the verifier prepares it: detached in the context of message +
+   Signature element (si_detached), canonicalised by the algorithm CanonicalizationMethod names (si_prep)). *)
+Theorem C13_sign_verify_accepts :
+  forall (canon : Dsig.canon_alg -> node -> option string) (digest : string -> string -> option string)
+         (sig_ok : Dsig.cert -> string -> string -> string -> bool) (parse_cert : string -> option Dsig.cert)
+         (reparse : string -> option node) (sign : string -> string -> string -> string) (key der : string) (crt : Dsig.cert),
+    (forall m b : string, sig_ok crt m b (sign key m b) = true) ->
+    (forall m b : string, sign key m b <> "") ->
+    parse_cert der = Some crt ->
+    (forall alg b d : string, digest alg b = Some d -> (20 <= String.length d)%nat) ->
+    forall (cx : sign_ctx) (el : node) (dv sv : string) (el' sg signed : node) (now : instant) (sm bytes d : string)
+           (det : node) (sa : Dsig.canon_alg) (p : node) (sib : string) (v : node),
+      construct_signature cx el (Ok (dv, sv)) = ORet (Ok (el', sg)) ->
+      sign_placement el' sg = ORet (Ok signed) ->
+      P_SignVerify.signable el' = true ->
+      In (canon_id (cx_canon cx)) P_SignVerify.c14n_ids ->
+      P_SignVerify.signer_alg (cx_canon cx) = P_SignVerify.alg_of_id (canon_id (cx_canon cx)) ->
+      ctx_certs (cx_keys cx) = Ok [der] -> der <> "" ->
+      ctx_signing_key (cx_keys cx) = Some (Ok key) ->
+      Dsig.cert_valid_at crt now = true ->
+      canon (P_SignVerify.signer_alg (cx_canon cx)) el' = Some bytes ->
+      digest (digest_id (cx_hash cx)) bytes = Some d ->
+      dv = base64_encode d ->
+      P_SignVerify.declared_method cx = Some sm ->
+      P_SignVerify.si_detached el' sg = Ok det ->
+      Dsig.si_prep (canon_id (cx_canon cx)) det = Ok (sa, p) ->
+      canon sa det = Some sib ->
+      reparse sib = Some p ->
+      sv = base64_encode (sign key sm sib) ->
+      reparse bytes = Some v ->
+      Dsig.dsig_validate canon digest sig_ok parse_cert reparse [crt] now signed = Response.DOk v.
+Proof. exact P_SignVerify.signed_message_verifies. Qed.
+Print Assumptions C13_sign_verify_accepts.
+
+(* the same for ANY DigestValue text base64(want): accepted exactly when [want] is the digest of the canonical message *)
+Theorem C13_sign_verify_digest_decides :
+  forall (canon : Dsig.canon_alg -> node -> option string) (digest : string -> string -> option string)
+         (sig_ok : Dsig.cert -> string -> string -> string -> bool) (parse_cert : string -> option Dsig.cert)
+         (reparse : string -> option node) (sign : string -> string -> string -> string) (key der : string) (crt : Dsig.cert),
+    (forall m b : string, sig_ok crt m b (sign key m b) = true) ->
+    (forall m b : string, sign key m b <> "") ->
+    parse_cert der = Some crt ->
+    (forall alg b d : string, digest alg b = Some d -> (20 <= String.length d)%nat) ->
+    forall (cx : sign_ctx) (el : node) (dv sv : string) (el' sg signed : node) (now : instant) (sm bytes d want : string)
+           (det : node) (sa : Dsig.canon_alg) (p : node) (sib : string) (v : node),
+      construct_signature cx el (Ok (dv, sv)) = ORet (Ok (el', sg)) ->
+      sign_placement el' sg = ORet (Ok signed) ->
+      P_SignVerify.signable el' = true ->
+      In (canon_id (cx_canon cx)) P_SignVerify.c14n_ids ->
+      P_SignVerify.signer_alg (cx_canon cx) = P_SignVerify.alg_of_id (canon_id (cx_canon cx)) ->
+      ctx_certs (cx_keys cx) = Ok [der] -> der <> "" ->
+      ctx_signing_key (cx_keys cx) = Some (Ok key) ->
+      Dsig.cert_valid_at crt now = true ->
+      canon (P_SignVerify.signer_alg (cx_canon cx)) el' = Some bytes ->
+      digest (digest_id (cx_hash cx)) bytes = Some d ->
+      dv = base64_encode want -> want <> "" ->
+      P_SignVerify.declared_method cx = Some sm ->
+      P_SignVerify.si_detached el' sg = Ok det ->
+      Dsig.si_prep (canon_id (cx_canon cx)) det = Ok (sa, p) ->
+      canon sa det = Some sib ->
+      reparse sib = Some p ->
+      sv = base64_encode (sign key sm sib) ->
+      reparse bytes = Some v ->
+      Dsig.dsig_validate canon digest sig_ok parse_cert reparse [crt] now signed =
+      (if d =?s want then Response.DOk v else Response.DErr).
+Proof. exact P_SignVerify.signed_message_outcome. Qed.
+Print Assumptions C13_sign_verify_digest_decides.
+
+(* (b) negative direction: a DigestValue that is the digest of anything else (a tampered element) is never accepted *)
+Theorem C13_sign_verify_tampered_digest_rejected :
+  forall (canon : Dsig.canon_alg -> node -> option string) (digest : string -> string -> option string)
+         (sig_ok : Dsig.cert -> string -> string -> string -> bool) (parse_cert : string -> option Dsig.cert)
+         (reparse : string -> option node) (sign : string -> string -> string -> string) (key der : string) (crt : Dsig.cert),
+    (forall m b : string, sig_ok crt m b (sign key m b) = true) ->
+    (forall m b : string, sign key m b <> "") ->
+    parse_cert der = Some crt ->
+    (forall alg b d : string, digest alg b = Some d -> (20 <= String.length d)%nat) ->
+    forall (cx : sign_ctx) (el : node) (dv sv : string) (el' sg signed : node) (now : instant) (sm bytes d want : string)
+           (det : node) (sa : Dsig.canon_alg) (p : node) (sib : string) (v : node),
+      construct_signature cx el (Ok (dv, sv)) = ORet (Ok (el', sg)) ->
+      sign_placement el' sg = ORet (Ok signed) ->
+      P_SignVerify.signable el' = true ->
+      In (canon_id (cx_canon cx)) P_SignVerify.c14n_ids ->
+      P_SignVerify.signer_alg (cx_canon cx) = P_SignVerify.alg_of_id (canon_id (cx_canon cx)) ->
+      ctx_certs (cx_keys cx) = Ok [der] -> der <> "" ->
+      ctx_signing_key (cx_keys cx) = Some (Ok key) ->
+      Dsig.cert_valid_at crt now = true ->
+      canon (P_SignVerify.signer_alg (cx_canon cx)) el' = Some bytes ->
+      digest (digest_id (cx_hash cx)) bytes = Some d ->
+      dv = base64_encode want -> want <> "" -> d <> want ->
+      P_SignVerify.declared_method cx = Some sm ->
+      P_SignVerify.si_detached el' sg = Ok det ->
+      Dsig.si_prep (canon_id (cx_canon cx)) det = Ok (sa, p) ->
+      canon sa det = Some sib ->
+      reparse sib = Some p ->
+      sv = base64_encode (sign key sm sib) ->
+      reparse bytes = Some v ->
+      Dsig.dsig_validate canon digest sig_ok parse_cert reparse [crt] now signed = Response.DErr.
+Proof. exact P_SignVerify.tampered_digest_rejected. Qed.
+Print Assumptions C13_sign_verify_tampered_digest_rejected.
+
+(* (a) "declares and actually uses": what the verifier reads back from the signed element (findSignature + NSUnmarshalElement)
+   is the configured canonicaliser identifier (CanonicalizationMethod and second Transform) and signature method, the digest
+   method of the configured hash; and the transform it then applies yields exactly the element the signer canonicalised,
+   under the canonicaliser that identifier names *)
+Theorem C13_sign_verify_reads_declared :
+  forall (cx : sign_ctx) (el : node) (dv sv : string) (el' sg signed : node) (sm der : string),
+    construct_signature cx el (Ok (dv, sv)) = ORet (Ok (el', sg)) ->
+    sign_placement el' sg = ORet (Ok signed) ->
+    P_SignVerify.signable el' = true ->
+    In (canon_id (cx_canon cx)) P_SignVerify.c14n_ids ->
+    ctx_certs (cx_keys cx) = Ok [der] -> der <> "" -> dv <> "" -> sv <> "" ->
+    P_SignVerify.declared_method cx = Some sm ->
+    exists (root' : node) (f : Dsig.found_sig) (sinfo : Dsig.signed_info) (r : Dsig.reference),
+      Dsig.find_signature signed = Ok (root', f) /\
+      Dsig.fs_path f = [1%nat] /\
+      Dsig.sg_signed_info (Dsig.fs_sig f) = Some sinfo /\
+      Dsig.si_c14n_alg sinfo = canon_id (cx_canon cx) /\
+      Dsig.si_sig_alg sinfo = sm /\
+      Dsig.si_refs sinfo = [r] /\
+      Dsig.ref_digest_alg r = digest_id (cx_hash cx) /\
+      Dsig.ref_transforms r =
+        [{| Dsig.tr_alg := Dsig.alg_enveloped; Dsig.tr_prefix_list := None |};
+         {| Dsig.tr_alg := canon_id (cx_canon cx); Dsig.tr_prefix_list := None |}] /\
+      Dsig.transform root' (Dsig.fs_path f) r = Ok (el', P_SignVerify.alg_of_id (canon_id (cx_canon cx))).
+Proof. exact P_SignVerify.verifier_reads_declared. Qed.
+Print Assumptions C13_sign_verify_reads_declared.
+
+(* the three builders' elements, as ANY configured canonicaliser (any prefix list) leaves them, are signable, for every
+   configuration and instant and every request id free of U+000D (uuid.NewV4().String() is) *)
+Theorem C13_sign_verify_builders_signable :
+  (forall (c : canon) (cfg : bcfg) (id : string) (now : instant) (nid sidx st rq : string),
+     Schema.cr_normalise id = id ->
+     (forall el' : node, canon_apply c (build_authn_request cfg id now) = Ok el' -> P_SignVerify.signable el' = true) /\
+     (forall el' : node, canon_apply c (build_logout_request cfg id now nid sidx) = Ok el' -> P_SignVerify.signable el' = true) /\
+     (forall el' : node, canon_apply c (build_logout_response cfg id now st rq) = Ok el' -> P_SignVerify.signable el' = true)) /\
+  (forall (c : canon) (cfg : bcfg) (m : message) (id : string) (now : instant),
+     Schema.cr_normalise id = id -> P_SignVerify.signable (pre_sign_tree c cfg m id now) = true).
+Proof. exact (conj P_SignVerify.built_elements_signable P_SignVerify.builders_signable). Qed.
+Print Assumptions C13_sign_verify_builders_signable.
+
+(* the two SignedInfo questions of C13_sign_verify_accepts are defined for every signed signable element *)
+Theorem C13_sign_verify_signed_info_defined :
+  forall (cx : sign_ctx) (el : node) (dv sv : string) (el' sg signed : node) (sm der : string),
+    construct_signature cx el (Ok (dv, sv)) = ORet (Ok (el', sg)) ->
+    sign_placement el' sg = ORet (Ok signed) ->
+    P_SignVerify.signable el' = true ->
+    In (canon_id (cx_canon cx)) P_SignVerify.c14n_ids ->
+    ctx_certs (cx_keys cx) = Ok [der] -> der <> "" -> dv <> "" -> sv <> "" ->
+    P_SignVerify.declared_method cx = Some sm ->
+    exists (det : node) (sa : Dsig.canon_alg) (p : node),
+      P_SignVerify.si_detached el' sg = Ok det /\
+      tag_of det = "SignedInfo" /\ Dsig.si_prep (canon_id (cx_canon cx)) det = Ok (sa, p).
+Proof. exact P_SignVerify.signed_info_query_defined. Qed.
+Print Assumptions C13_sign_verify_signed_info_defined.
+
+(* Sign{AuthnRequest,LogoutRequest,LogoutResponse} = SigningContext, ConstructSignature, re-assembly *)
+Theorem C13_sign_verify_sign_element_steps :
+  forall (cfg : bcfg) (k : keycfg) (el : node) (crypto : res (string * string)) (signed : node),
+    sign_element cfg k el crypto = ORet (Ok signed) ->
+    exists (cx : sign_ctx) (el' sg : node),
+      signing_context cfg k = ORet (Ok cx) /\
+      construct_signature cx el crypto = ORet (Ok (el', sg)) /\ sign_placement el' sg = ORet (Ok signed).
+Proof. exact P_SignVerify.sign_element_inv. Qed.
+Print Assumptions C13_sign_verify_sign_element_steps.
+
+(* non-vacuity: function oracles (P_SignVerify.SVExample) satisfying the four laws; an AuthnRequest built by
+   build_authn_request, signed by the honest signer (honest: DigestValue and SignatureValue computed from the oracles), is
+   accepted and the verified element is the built element -- obtained BY APPLYING C13_sign_verify_accepts (every law and
+   premise discharged), and also by evaluation for c14n 1.1, exc-c14n and c14n 1.0 with comments *)
+Theorem C13_sign_verify_nonvacuous :
+  (P_SignVerify.SVExample.honest None "id-1" = Some P_SignVerify.SVExample.r1 /\
+   P_SignVerify.SVExample.verify P_SignVerify.SVExample.r1 =
+   Response.DOk (P_SignVerify.SVExample.r_el' P_SignVerify.SVExample.r1)) /\
+  P_SignVerify.SVExample.is_ok_of (P_SignVerify.SVExample.outcome None "id-1") = true /\
+  P_SignVerify.SVExample.is_ok_of (P_SignVerify.SVExample.outcome (Some (CanonExc [] false)) "id-1") = true /\
+  P_SignVerify.SVExample.is_ok_of (P_SignVerify.SVExample.outcome (Some (CanonOther Dsig.alg_rec_wc)) "id-1") = true.
+Proof.
+  exact (conj P_SignVerify.SVExample.accepted_by_theorem
+        (conj P_SignVerify.SVExample.accepted_c11 (conj P_SignVerify.SVExample.accepted_exc P_SignVerify.SVExample.accepted_rec_with_comments))).
+Qed.
+Print Assumptions C13_sign_verify_nonvacuous.
+
+(* the premise "the declared identifier names the canonicaliser the signer ran" cannot be dropped: exclusive canonicaliser
+   built with the prefix list "saml" (known finding exc-prefix-list): signed honestly, every other premise holds, REJECTED *)
+Theorem C13_sign_verify_exc_prefix_list_refuted :
+  exists r : P_SignVerify.SVExample.run,
+    P_SignVerify.SVExample.honest (Some (CanonExc ["saml"] false)) "id-1" = Some r /\
+    P_SignVerify.signable (P_SignVerify.SVExample.r_el' r) = true /\
+    P_SignVerify.signer_alg (CanonExc ["saml"] false) <> P_SignVerify.alg_of_id (canon_id (CanonExc ["saml"] false)) /\
+    P_SignVerify.SVExample.verify r = Response.DErr.
+Proof. exact P_SignVerify.SVExample.exc_prefix_list_refuted. Qed.
+Print Assumptions C13_sign_verify_exc_prefix_list_refuted.
+
+(* signable cannot be dropped: an ID containing U+000D -- the verifier reports a MISSING signature (the Reference URI it
+   reads has LF) *)
+Theorem C13_sign_verify_cr_in_id_refuted :
+  exists r : P_SignVerify.SVExample.run,
+    P_SignVerify.SVExample.honest None P_SignVerify.SVExample.cr_id = Some r /\
+    P_SignVerify.signable (P_SignVerify.SVExample.r_el' r) = false /\ P_SignVerify.SVExample.verify r = Response.DMissing.
+Proof. exact P_SignVerify.SVExample.cr_in_id_refuted. Qed.
+Print Assumptions C13_sign_verify_cr_in_id_refuted.
+
+(* a canonicaliser whose identifier goxmldsig's verifier does not know: findSignature fails before any oracle is asked *)
+Theorem C13_sign_verify_unknown_canonicaliser_refuted :
+  sign_element P_SignVerify.SVExample.cfg_u P_SignVerify.SVExample.keys0
+    (build_authn_request P_SignVerify.SVExample.cfg_u "id-1" P_SignVerify.SVExample.t_now) (Ok ("ZHY=", "eA==")) =
+  ORet (Ok P_SignVerify.SVExample.signed_u) /\
+  Dsig.find_signature P_SignVerify.SVExample.signed_u = Err (EOther "invalid-c14n-method").
+Proof. exact P_SignVerify.SVExample.unknown_canonicaliser_refuted. Qed.
+Print Assumptions C13_sign_verify_unknown_canonicaliser_refuted.
 
 (* ---- which key signs: getSignerCert / getSigningCert as translated from /repo's saml.go on this run ---- *)
 From V Require Import Keys GenPrelude GenFuncs P_GenKeys.
@@ -301,3 +532,4 @@ Theorem C13_source_signed_documents_are_the_model : forall pk_of key_name crypto
    end).
 Proof. exact signed_documents_tie. Qed.
 Print Assumptions C13_source_signed_documents_are_the_model.
+
